@@ -75,3 +75,16 @@ Definition edges_of_type (t : etype) (st : gstate) : list ((bytes * bytes) * ged
 
 (* path-level view (what is drawn: nodes are named by their path) *)
 Definition path_edges (g : list gnode * list gedge) : list (bytes * bytes) := map (fun e => (e_from e, e_to e)) (snd g).
+
+(* "signatures identify paths": no two kept occurrences of the tree, and no kept occurrence and fetched reference, carry the
+   same signature under different paths *)
+Definition sig_determines_path (x : fi) (R : list (bytes * bytes)) : Prop :=
+  (forall n m, In n (kept_nodes x) -> In m (kept_nodes x) -> snd n = snd m -> fst n = fst m) /\
+  (forall q s n, In (q, s) R -> In n (kept_nodes x) -> snd n = s -> fst n = q).
+
+(* no kept function has the signature of one of its own head nodes (the keys of its solid edges have distinct components),
+   nor a signature that one of the paths it loads can denote (a fetched reference of that path, or a kept occurrence of the
+   tree under that path) *)
+Definition no_self_sig (x : fi) (R : list (bytes * bytes)) : Prop :=
+  (forall k, In k (solid_spec x) -> fst k <> snd k) /\
+  (forall q s s2, In (q, s) (dashed_spec x) -> In (q, s2) R \/ In (q, s2) (kept_nodes x) -> s2 <> s).
